@@ -104,7 +104,7 @@ class Check(object):
         for k in stale:
             print('   note: known finding [%s %s] was not observed on this tree (repaired or moved?)' % (k.get('rule'), k.get('key')), file=out)
         rc = 0
-        replay_dir = os.path.join(VERIF, 'evidence', 'replay')
+        replay_dir = os.path.join(os.environ.get('LCVERIF_EVIDENCE') or os.path.join(VERIF, 'evidence'), 'replay')
         if unlisted:
             os.makedirs(replay_dir, exist_ok=True)
             for n, v in enumerate(unlisted):
@@ -172,7 +172,7 @@ class Check(object):
             'violations': nviol,
         }
         ev['coverage'].update(self.extra)
-        d = os.path.join(VERIF, 'evidence')
+        d = os.environ.get('LCVERIF_EVIDENCE') or os.path.join(VERIF, 'evidence')
         os.makedirs(d, exist_ok=True)
         tmp = os.path.join(d, '.%s.json.%d' % (self.pid, os.getpid()))
         with open(tmp, 'w') as fh:
